@@ -374,6 +374,10 @@ func (d *Def) getMethodNameAndSetIsStatic(
 				ctx.IsDefineStatic,
 			)
 
+		if objectT == nil {
+			return "", fmt.Errorf("'%s' is not defined", t.ToString())
+		}
+
 		if objectT.ID == "" {
 			objectT.ID = base.GenId()
 		}
@@ -694,7 +698,7 @@ func (d *Def) Evaluation(
 	methodT := d.makeDefineMethodT(p, ctx, method, args, returnT, isBlockGiven)
 
 	// def hoge= || def [] || def []=
-	if method[len(method)-1] == '=' || method == "[]" || method == "[]=" {
+	if (len(method) > 0 && method[len(method)-1] == '=') || method == "[]" || method == "[]=" {
 		for _, arg := range args {
 			base.SetValueT(
 				methodT.DefinedFrame,
